@@ -85,6 +85,7 @@ def run(tier='quick'):
             else:
                 chk.ok(L4, '%s framing %s' % (short, g.framing), locstr(g.func.node))
     _framing(prog, chk, L4)
+    _columns(prog, chk, spec)
     return chk.finish(
         'Static comparison of the byte layout the code implements with an independent declarative layout '
         'table: the bit/byte mapping of the 14 primitives is derived from their AST, the ordered '
@@ -93,6 +94,51 @@ def run(tier='quick'):
         'against the table, and the zlib framing is checked on both sides. A self-consistent change of '
         'encoder and decoder (field swap, endianness, dropped prefix, reordered colour channels) differs '
         'from the table and is reported with the first differing item.', exhaustive=True)
+
+
+def _columns(prog, chk, spec):
+    """L5: the layout table says which column holds which blob; every statement that stores an
+    encoded value in that column takes it from that codec's encoder and every statement that
+    decodes the column uses that codec's decoder (a transposed column list stores well-formed
+    blobs of the wrong kind)."""
+    from .. import callgraph, effects, rowrules
+    from . import c01, c18
+    L5 = chk.rule('L5', 'each performance-data column is written from the encoder and read through the decoder '
+                        'of the codec the layout table assigns to that column, at every statement of both '
+                        'generations', floor=20)
+    cg = callgraph.get(prog)
+    eff = effects.Effects(prog, cg)
+    maps = [m for m in rowrules.expand_sites(prog, cg, eff, c01.v1_storage_functions(prog))
+            if (m.stmt.table or '').lower() in c01.TRACK_TABLES]
+    maps += rowrules.expand_sites(prog, cg, eff, c18.table_functions(prog, 'track_table'))
+    table = c01.codec_table(maps)
+    want = {}
+    for name, entry in spec['blobs'].items():
+        col = entry.get('column')
+        if not col:
+            raise AnalysisBroken('layout table entry %s names no column' % name)
+        want[tuple(col.split('.'))] = name.split()[1]
+    for key, codec_name in sorted(want.items()):
+        d = table.get(key)
+        if d is None or not d.get('write') or not d.get('read'):
+            chk.unknown(L5, '%s.%s' % key, 'no encoding write or no decoding read of this column was found')
+            continue
+        for side in ('write', 'read'):
+            for cls, sms in sorted(d[side].items(), key=lambda kv: str(kv[0])):
+                for sm in sms:
+                    inst = '%s.%s %s at %s through %s' % (key[0], key[1], 'written' if side == 'write' else 'read',
+                                                          sm.loc, cls)
+                    if cls == codec_name:
+                        chk.ok(L5, inst, sm.loc)
+                    else:
+                        chk.violation(L5, '%s.%s|%s through %s' % (key[0], key[1], side, cls), sm.loc,
+                                      '%s, but the layout table stores %s in this column: an independent reader '
+                                      'finds a blob of the wrong kind there' % (inst, codec_name))
+    extra = sorted(set(table) - set(want))
+    for key in extra:
+        chk.violation(L5, '%s.%s|column not in the layout table' % key, '-',
+                      'column %s.%s is written / read through a blob codec but the layout table has no entry '
+                      'for it' % key)
 
 
 def _framing(prog, chk, L4):
@@ -188,6 +234,8 @@ def _framing(prog, chk, L4):
     _deflate_complete(prog, chk, L4, zc)
     _pending_output(prog, chk, L4, zc, 'deflate')
     _pending_output(prog, chk, L4, zu, 'inflate')
+    from . import c05
+    c05.benign_buf_error(prog, chk, L4, zu, *c05.zlib_loop(prog, zu))
     # every compressed codec goes through these two functions: checked per codec above (framing)
 
 
